@@ -22,6 +22,7 @@ THEOREMS = ["EngineModel.Properties.C09." + t for t in [
     "C09_history_listings_equal_spec_partial",
     "C09_step_changes_as_prescribed",
     "C09_history_listings_change_as_prescribed_partial",
+    "C09_new_or_moved_crate_is_last",
     "C09_add_back_identity_includes_database",
     "C09_history_counterexample",
 ]]
